@@ -14,6 +14,24 @@ def clean_verdict(f):
     return lambda x: x['k'] == 'ret' and const_value(x.get('e')) == 0
 
 
+def _reachable_avoiding(f, bid, bad_edge):
+    """Block bid can be reached from the entry without taking an edge one of whose facts satisfies bad_edge (structural:
+    later writes do not matter).  False means: every way into it passes such an edge."""
+    seen, st = set(), [f.entry]
+    while st:
+        b = st.pop()
+        if b in seen:
+            continue
+        seen.add(b)
+        if b == bid:
+            return True
+        for i, s2 in enumerate(f.blocks[b]['succ']):
+            if s2 is None or any(bad_edge(k2, p2, a2) for k2, p2, a2 in f.edge_facts(b, i)):
+                continue
+            st.append(s2)
+    return False
+
+
 def run(ctx):
     prog = ctx.prog
     R = ctx.rule
@@ -55,7 +73,9 @@ def run(ctx):
             if s2 is None:
                 continue
             if any(p_ is True and mentions_call(a, 'RecomputeOutputsDirtyCache::CachedLogEntry::LookupByOutput') for k_, p_, a in first.edge_facts(bid, i)) and \
-                    not fact_holds(first.facts_at_block(bid), lambda a: mentions_field(a, 'RecomputeOutputsDirtyCache::isRestat_'), True):
+                    not fact_holds(first.facts_at_block(bid), lambda a: mentions_field(a, 'RecomputeOutputsDirtyCache::isRestat_'), True) and \
+                    not any(p_ is True and mentions_field(a, 'RecomputeOutputsDirtyCache::isRestat_') for k_, p_, a in first.edge_facts(bid, i)) and \
+                    _reachable_avoiding(first, bid, lambda k2, p2, a2: p2 is True and mentions_field(a2, 'RecomputeOutputsDirtyCache::isRestat_')):
                 nh += 1
                 r = first.find_path(None, clean_verdict(first), from_succ=s2, sensitive=False,
                                     is_blocker=lambda x: x in hashed or (x['k'] == 'ret' and const_value(x.get('e')) == 1),
